@@ -532,11 +532,14 @@ int vnadata_convert(const vnadata_t *vdp_in, vnadata_t *vdp_out,
 	    return -1;
 	}
 	vnadata_set_frequency_vector(vdp_out, vdp_in->vd_frequency_vector);
-	if (MAX(vdp_in->vd_rows, vdp_in->vd_columns) == 0) {
+	if (MAX(vdp_in->vd_rows, vdp_in->vd_columns) == 0 ||
+		((vdip_in->vdi_flags & VF_PER_F_Z0) &&
+		 vdp_in->vd_frequencies == 0)) {
 	    /*
 	     * An input without ports has no reference impedances to
 	     * copy, though the 1 x 0 vector made for Zin counts as one
-	     * port: leave the initial values, keeping the z0 mode.
+	     * port; nor has one with per-frequency impedances and no
+	     * frequency: leave the initial values, keeping the z0 mode.
 	     */
 	    if ((vdip_in->vdi_flags & VF_PER_F_Z0) &&
 		    _vnadata_convert_to_fz0(VDP_TO_VDIP(vdp_out)) == -1) {
